@@ -154,6 +154,16 @@ fn run(case: &Val) -> Val {
                             ok = false;
                             break;
                         }
+                        // `background_rotation` build: roll() has moved the file to a temporary name next to it and
+                        // a thread does the rest; that thread's last action moves the temporary file away
+                        if cfg!(feature = "background_rotation") {
+                            let t0 = std::time::Instant::now();
+                            while std::fs::read_dir(src_dir.path()).map(|d| d.count()).unwrap_or(0) > 0
+                                && t0.elapsed() < std::time::Duration::from_secs(5)
+                            {
+                                std::thread::sleep(std::time::Duration::from_micros(200));
+                            }
+                        }
                     }
                     ok
                 }
